@@ -20,7 +20,7 @@ Theorem c09_builtin_fidelity : forall M P fS fR E ver tb e n,
   vload M fR E payload =
     ([ENew (Real (Builtin n))],
      Ok (LExc (Real (Builtin n)) (PTuple (map norm (e_args e)))
-              (map set_of (public_attrs (e_dir e) ++ [(REMOTE_VERSION, PStr (if incl_ver fS then ver else DENIED_VER))]))
+              (map set_of (public_attrs (skip_callables P) (e_dir e) ++ [(REMOTE_VERSION, PStr (if incl_ver fS then ver else DENIED_VER))]))
               (Done (PStr (if incl_tb fS then tb else DENIED_TB)) (version_warn fS E ver)))).
 Proof.
   intros M P fS fR E ver tb e n HC HA HB HR HF. exists (vdump P fS ver tb e). split; [now apply serve_not_routed|].
@@ -50,6 +50,34 @@ Proof.
 Qed.
 Print Assumptions c09_builtin_fidelity_refuted.
 
+(* 1d. "so ordinary except-clauses work": what is set on the rebuilt object are DATA attributes.  SCOPE of theorem 1: its attribute
+       list is [public_attrs (skip_callables P)], i.e. on a tree whose dump does not leave callables out (generated fact) it contains
+       the repr text of every public METHOD (add_note, a custom class's methods), which setattr then puts on the instance, shadowing
+       the method.  Positive statement, guarded by the generated fact: every pair that reaches the wire comes from a non-callable
+       attribute of the original; refuted otherwise with a witness (finding: method-replaced-by-text). *)
+Theorem c09_methods_not_shadowed : forall P fS ver tb e m n, skip_callables P = true -> fast_taken P e = false ->
+  args_entries (e_dir e) = 1%nat -> cls_key (e_cls e) = (m, n) ->
+  exists attrs, vdump P fS ver tb e = record m n (map norm (e_args e)) (attrs ++ [version_attr fS ver]) (tb_field fS tb) /\
+    forall na, In na attrs -> exists o, In (fst na, Some o) (e_dir e) /\ o_callable o = false /\ snd na = norm o.
+Proof.
+  intros P fS ver tb e m n HS HF HA HK. exists (public_attrs true (e_dir e)). split.
+  - rewrite (vdump_slow _ _ _ _ _ HF HA), HK, HS. reflexivity.
+  - intros na. apply public_attrs_not_callable.
+Qed.
+Print Assumptions c09_methods_not_shadowed.
+Theorem c09_methods_not_shadowed_refuted : forall P fS ver tb, skip_callables P = false ->
+  exists e name o, e_cls e = Builtin (txt "ValueError") /\ args_entries (e_dir e) = 1%nat /\ fast_taken P e = false /\
+    In (name, Some o) (e_dir e) /\ o_callable o = true /\
+    In (name, PStr (o_repr o)) (public_attrs (skip_callables P) (e_dir e)) /\
+    vdump P fS ver tb e = record BUILTINS (txt "ValueError") [] (public_attrs (skip_callables P) (e_dir e) ++ [version_attr fS ver]) (tb_field fS tb).
+Proof.
+  intros P fS ver tb HS.
+  pose (o := {| o_val := POther 1; o_repr := txt "<built-in method add_note of ValueError object>"; o_callable := true |}).
+  exists {| e_cls := Builtin (txt "ValueError"); e_args := []; e_dir := [(txt "add_note", Some o); (ARGS, None)] |}, (txt "add_note"), o.
+  rewrite HS. repeat split; try (now left). unfold vdump, fast_taken. rewrite HS. reflexivity.
+Qed.
+Print Assumptions c09_methods_not_shadowed_refuted.
+
 (* 2. a class outside builtins: the real class is rebuilt exactly when the receiver instantiates custom exceptions AND the
       module is present (already imported, or importable AND the receiver imports custom exceptions) AND the attribute is
       a BaseException subclass -- found in the module's namespace, or handed out by the module's __getattr__ hook (PEP 562)
@@ -76,7 +104,7 @@ Print Assumptions c09_custom_real_iff.
 
 (* the record of a custom exception as the sender produces it is of the shape 2 quantifies over *)
 Theorem c09_custom_record : forall P fS ver tb e m n, e_cls e = Custom m n -> args_entries (e_dir e) = 1%nat ->
-  vdump P fS ver tb e = record m n (map norm (e_args e)) (public_attrs (e_dir e) ++ [version_attr fS ver]) (tb_field fS tb).
+  vdump P fS ver tb e = record m n (map norm (e_args e)) (public_attrs (skip_callables P) (e_dir e) ++ [version_attr fS ver]) (tb_field fS tb).
 Proof.
   intros P fS ver tb e m n HC HA. rewrite vdump_slow; [now rewrite HC|unfold fast_taken; now rewrite HC|exact HA].
 Qed.
@@ -149,24 +177,30 @@ Proof.
 Qed.
 Print Assumptions c09_stopiteration_fastpath.
 
-(* 4b. every exception message reaches the request it answers.  The loader fails on ill-shaped payloads (and on a class whose
-       __new__ needs arguments) with TypeError / ValueError / UnicodeError only, never EOFError; on a tree whose _dispatch delivers
-       a rebuild failure to the request (generated fact [Dgen]) nothing escapes _dispatch: the request gets either the rebuilt
-       exception or that failure.  On a tree that unboxes inline the failure escapes with the callback left registered. *)
+(* 4b. every exception message reaches the request it answers.  vinegar.load fails -- before an object exists ([Raise]: ill-shaped
+       payload, a class whose __new__ needs arguments, an unusable generic name) or while filling the object in ([Fail]: attribute
+       list / version / traceback fields of the wrong type) -- with TypeError / ValueError / UnicodeError / AttributeError only, never
+       EOFError (SCOPE: failures of CPython's own setattr on the new object are outside the model); on a tree whose _dispatch
+       delivers a rebuild failure to the request (generated fact, asserted in c09_tie) nothing escapes _dispatch: the request gets
+       the rebuilt exception or that failure.  On a tree that unboxes inline both kinds of failure escape, callback left registered. *)
 Theorem c09_exception_reaches_request : forall M fR E payload,
-  (forall e, snd (vload M fR E payload) = Raise e -> e = TypeError \/ e = ValueError \/ e = UnicodeError) /\
+  (forall e, load_failure (snd (vload M fR E payload)) = Some e -> e = TypeError \/ e = ValueError \/ e = UnicodeError \/ e = AttributeError) /\
   (forall e, dispatch_exception true (snd (vload M fR E payload)) <> Escapes e) /\
-  (forall l, snd (vload M fR E payload) = Ok l -> forall d, dispatch_exception d (snd (vload M fR E payload)) = ToRequest l).
+  (forall l, snd (vload M fR E payload) = Ok l -> load_failure (Ok l) = None -> forall d, dispatch_exception d (snd (vload M fR E payload)) = ToRequest l).
 Proof.
   intros M fR E v. split; [|split].
-  - intros e. apply vload_raise_kinds.
+  - intros e. apply vload_failure_kinds.
   - apply exception_reaches_request.
-  - intros l H d. now rewrite H.
+  - intros l H HN d. rewrite H. unfold dispatch_exception. now rewrite HN.
 Qed.
 Print Assumptions c09_exception_reaches_request.
-Theorem c09_exception_reaches_request_refuted : forall M fR E,
-  exists payload e, dispatch_exception false (snd (vload M fR E payload)) = Escapes e.
-Proof. intros M fR E. exists (PInt 2), TypeError. apply exception_escapes_refuted. Qed.
+Theorem c09_exception_reaches_request_refuted : forall M,
+  (forall fR E, dispatch_exception false (snd (vload M fR E (PInt 2))) = Escapes TypeError) /\
+  (exists fR E payload l, snd (vload M fR E payload) = Ok l /\ dispatch_exception false (snd (vload M fR E payload)) = Escapes AttributeError).
+Proof.
+  intros M. split; [intros; apply exception_escapes_refuted|].
+  eexists _, hook_env, _, _. split; [|exact (exception_escapes_refuted_fail M)]. destruct M; reflexivity.
+Qed.
 Print Assumptions c09_exception_reaches_request_refuted.
 
 (* 5. "when, and only when": with a sender switch off the payload does not depend on the traceback / version text at all *)
@@ -198,12 +232,16 @@ Theorem c09_tie :
   map txt Gen_vinegar.dump_ignored_attrs = IGNORED_ATTRS /\ Gen_vinegar.dump_norm_is_dumpable_or_repr = true /\
   List.length Gen_vinegar.box_exc_map = 2%nat /\ List.length Gen_vinegar.unbox_exc_map = 3%nat /\
   import_custom default_rflags = false /\ inst_custom default_rflags = false /\
-  List.length Gen_vinegar.routed_locally = 2%nat /\ Gen_vinegar.dispatch_exception_unboxes = true.
+  List.length Gen_vinegar.routed_locally = 2%nat /\ Gen_vinegar.dispatch_exception_unboxes = true /\
+  (* the repairs this tree carries: reverting one breaks the tie *)
+  Dgen = true /\ mode_safe Mgen = true /\ fast_noargs_only Pgen = true /\ Gen_vinegar.send_exc_reports_dump_failure = true /\
+  Gen_vinegar.remote_line_format = "{0}({{}}){1}"%string /\ String.length Gen_vinegar.remote_line_start = 29%nat /\ String.length Gen_vinegar.remote_line_end = 11%nat.
 Proof.
   pose proof tie_import_guard. pose proof tie_ladder. pose proof tie_load_guards as [? ?]. pose proof tie_denied as (? & ? & ?).
   pose proof tie_names as (? & ? & ? & ? & ?). pose proof tie_norm. pose proof tie_box as TB. pose proof tie_unbox as TU.
   pose proof default_rflags_safe as [? ?]. pose proof tie_routed as [TR ?]. pose proof tie_dispatch. pose proof tie_fast_const.
-  pose proof tie_exceptions_module. pose proof tie_record. pose proof tie_defaults.
+  pose proof tie_exceptions_module. pose proof tie_record. pose proof tie_defaults. pose proof tie_repairs as (? & ? & ?).
+  pose proof tie_send_exc. pose proof tie_remote_line as (? & ? & ?).
   repeat split; auto; try (now rewrite TB); try (now rewrite TU); now rewrite TR.
 Qed.
 Print Assumptions c09_tie.
@@ -217,34 +255,38 @@ Definition E0 : env :=
      modules := [(T "mymod", [(T "Foo", AExc (Custom (T "mymod") (T "Foo")) true); (T "helper", AOther)])];
      importable := [(T "lazy", [(T "Bar", AExc (Custom (T "lazy") (T "Bar")) true)])];
      local_major := T "5" |}.
-Definition imm (v : pyval) : obj := {| o_val := v; o_repr := T "?" |}.
-Definition opaque (r : string) : obj := {| o_val := POther 1; o_repr := T r |}.
+Definition imm (v : pyval) : obj := {| o_val := v; o_repr := T "?"; o_callable := false |}.
+Definition opaque (r : string) : obj := {| o_val := POther 1; o_repr := T r; o_callable := false |}.
+Definition method (r : string) : obj := {| o_val := POther 1; o_repr := T r; o_callable := true |}.
+(* explicit parameters (the examples must not depend on which repairs the tree carries) *)
+Definition Pold : vparams := {| fast_noargs_only := true; skip_callables := false |}.
+Definition Pnew : vparams := {| fast_noargs_only := true; skip_callables := true |}.
 Definition verr : exc :=
   {| e_cls := Builtin (T "ValueError");
-     e_args := [imm (PInt 7); opaque "[1, 2]"; imm (PTuple [PStr (T "a"); PNone]); {| o_val := PTuple [PInt 1; POther 1]; o_repr := T "(1, [])" |}];
+     e_args := [imm (PInt 7); opaque "[1, 2]"; imm (PTuple [PStr (T "a"); PNone]); {| o_val := PTuple [PInt 1; POther 1]; o_repr := T "(1, [])"; o_callable := false |}];
      e_dir := [(T "__class__", Some (opaque "<class 'ValueError'>")); (T "_secret", Some (imm (PInt 1)));
-               (T "add_note", Some (opaque "<built-in method add_note>")); (T "args", Some (opaque "(..)"));
+               (T "add_note", Some (method "<built-in method add_note>")); (T "args", Some (opaque "(..)"));
                (T "characters_written", None); (T "errno", Some (imm (PInt 2))); (T "payload", Some (opaque "{'k': 1}"));
-               (T "with_traceback", Some (opaque "<built-in method with_traceback>"))] |}.
+               (T "with_traceback", Some (method "<built-in method with_traceback>"))] |}.
 Definition on : sflags := {| incl_tb := true; incl_ver := true; prop_sysexit := false; prop_kbdint := true |}.
 Definition off : sflags := {| incl_tb := false; incl_ver := false; prop_sysexit := true; prop_kbdint := true |}.
 Definition R (i c : bool) : rflags := {| import_custom := i; inst_custom := c; inst_oldstyle := false |}.
 
 Example c09_fidelity_hypotheses_met :
   args_entries (e_dir verr) = 1%nat /\ assoc (T "ValueError") (builtins_ns E0) = Some (AExc (Builtin (T "ValueError")) true) /\
-  routed off (e_cls verr) = false /\ fast_taken Pgen verr = false /\
-  vload Mgen (R false false) E0 (vdump Pgen on (T "4.0.0") (T "Traceback..") verr) =
+  routed off (e_cls verr) = false /\ fast_taken Pold verr = false /\
+  vload Mgen (R false false) E0 (vdump Pold on (T "4.0.0") (T "Traceback..") verr) =
     ([ENew (Real (Builtin (T "ValueError")))],
      Ok (LExc (Real (Builtin (T "ValueError")))
               (PTuple [PInt 7; PStr (T "[1, 2]"); PTuple [PStr (T "a"); PNone]; PStr (T "(1, [])")])
               [(PStr (T "add_note"), PStr (T "<built-in method add_note>")); (PStr (T "errno"), PInt 2);
                (PStr (T "payload"), PStr (T "{'k': 1}")); (PStr (T "_remote_version"), PStr (T "4.0.0"))]
               (Done (PStr (T "Traceback..")) true))) /\
-  vload Mgen (R true true) E0 (vdump Pgen off (T "4.0.0") (T "Traceback..") verr) =
+  vload Mgen (R true true) E0 (vdump Pnew off (T "4.0.0") (T "Traceback..") verr) =
     ([ENew (Real (Builtin (T "ValueError")))],
      Ok (LExc (Real (Builtin (T "ValueError")))
               (PTuple [PInt 7; PStr (T "[1, 2]"); PTuple [PStr (T "a"); PNone]; PStr (T "(1, [])")])
-              [(PStr (T "add_note"), PStr (T "<built-in method add_note>")); (PStr (T "errno"), PInt 2);
+              [(PStr (T "errno"), PInt 2);           (* Pnew: the method add_note is not sent *)
                (PStr (T "payload"), PStr (T "{'k': 1}")); (PStr (T "_remote_version"), PStr (T "<version denied>"))]
               (Done (PStr (T "<traceback denied>")) false))).
 Proof. vm_compute. repeat split. Qed.
@@ -295,14 +337,14 @@ Proof. vm_compute. reflexivity. Qed.
 
 (* F9 witness and the repaired behaviour side by side *)
 Example c09_stopiteration_witness :
-  arrived (vload Mgen (R false false) E0 (vdump {| fast_noargs_only := false |} on (T "5.0.1") (T "tb") stop_x)) = Some (Builtin STOP_ITERATION, PTuple []) /\
-  arrived (vload Mgen (R false false) E0 (vdump {| fast_noargs_only := true |} on (T "5.0.1") (T "tb") stop_x)) = Some (Builtin STOP_ITERATION, PTuple [PStr (T "x")]) /\
+  arrived (vload Mgen (R false false) E0 (vdump {| fast_noargs_only := false; skip_callables := false |} on (T "5.0.1") (T "tb") stop_x)) = Some (Builtin STOP_ITERATION, PTuple []) /\
+  arrived (vload Mgen (R false false) E0 (vdump {| fast_noargs_only := true; skip_callables := false |} on (T "5.0.1") (T "tb") stop_x)) = Some (Builtin STOP_ITERATION, PTuple [PStr (T "x")]) /\
   assoc STOP_ITERATION (builtins_ns E0) = Some (AExc (Builtin STOP_ITERATION) true).
 Proof. vm_compute. repeat split. Qed.
 
 Example c09_disclosure_witness :
-  vdump Pgen off (T "5.0.1") (T "secret traceback") verr = vdump Pgen off (T "9.9.9") (T "other") verr /\
-  vdump Pgen on (T "5.0.1") (T "secret traceback") verr <> vdump Pgen on (T "5.0.1") (T "other") verr /\
+  vdump Pold off (T "5.0.1") (T "secret traceback") verr = vdump Pold off (T "9.9.9") (T "other") verr /\
+  vdump Pold on (T "5.0.1") (T "secret traceback") verr <> vdump Pold on (T "5.0.1") (T "other") verr /\
   routed off (Builtin SYSTEM_EXIT) = true /\ routed on (Builtin SYSTEM_EXIT) = false.
 Proof. vm_compute. repeat split. discriminate. Qed.
 
